@@ -8,7 +8,7 @@ EXTENDS RTable
 CONSTANTS KCh,            \* kernel chains of the model, e.g. {"K1"} or {"K1", "K2"}
           Modes,          \* subset of {"insert", "append"}
           OwnsAllSet,     \* subset of BOOLEAN (TRUE = nftables.Table semantics)
-          Rich,           \* BOOLEAN: larger menus
+          Rich,           \* 0..2: size of the menus
           StartExtras     \* sets of pre-existing non-kernel chains to start from (subsets of DOMAIN ExtraChains)
 
 b(i) == [id |-> i, tgt |-> ""]
@@ -20,12 +20,15 @@ old(i, t) == [h |-> "", id |-> i, tgt |-> t]                 \* pre-hash Felix h
 DesChains == {"cali-a", "cali-b"}
 ChainMenu(c) ==
     IF c = "cali-a"
-      THEN {<<>>, <<b(1)>>, <<b(1), b(2)>>, <<b(1), j(2, "cali-b")>>}
-           \cup (IF Rich THEN {<<b(2), b(1)>>, <<b(1), b(2), b(3)>>, <<b(2)>>} ELSE {})
-      ELSE {<<b(1)>>, <<b(1), b(2)>>} \cup (IF Rich THEN {<<>>, <<b(2)>>, <<b(3), b(1)>>} ELSE {})
-InsMenu == {<<>>, <<j(5, "cali-a")>>, <<b(3), j(5, "cali-a")>>}
-           \cup (IF Rich THEN {<<j(6, "cali-b"), j(5, "cali-a")>>, <<b(3)>>} ELSE {})
-AppMenu == {<<>>, <<b(4)>>} \cup (IF Rich THEN {<<j(6, "cali-b")>>} ELSE {})
+      THEN {<<b(1)>>, <<b(1), j(2, "cali-b")>>}
+           \cup (IF Rich >= 1 THEN {<<>>, <<b(1), b(2)>>} ELSE {})
+           \cup (IF Rich >= 2 THEN {<<b(2), b(1)>>, <<b(1), b(2), b(3)>>, <<b(2)>>} ELSE {})
+      ELSE {<<b(1)>>} \cup (IF Rich >= 1 THEN {<<b(1), b(2)>>} ELSE {})
+                      \cup (IF Rich >= 2 THEN {<<>>, <<b(2)>>, <<b(3), b(1)>>} ELSE {})
+InsMenu == {<<>>, <<b(3), j(5, "cali-a")>>}
+           \cup (IF Rich >= 1 THEN {<<j(5, "cali-a")>>} ELSE {})
+           \cup (IF Rich >= 2 THEN {<<j(6, "cali-b"), j(5, "cali-a")>>, <<b(3)>>} ELSE {})
+AppMenu == {<<>>, <<b(4)>>} \cup (IF Rich >= 2 THEN {<<j(6, "cali-b")>>} ELSE {})
 
 \* ---- out-of-band edits -------------------------------------------------------------------------
 InsertAt(s, i, r) == SubSeq(s, 1, i) \o <<r>> \o SubSeq(s, i + 1, Len(s))       \* i = 0 .. Len(s)
@@ -34,17 +37,27 @@ Swap12(s) == <<s[2], s[1]>> \o SubSeq(s, 3, Len(s))
 Edits ==
     { [kind |-> "ins", chain |-> k, pos |-> p, rule |-> r] :
         k \in KCh, p \in {0, 9},
-        r \in {f(7), st(1, ""), old(8, "cali-old")} \cup (IF Rich THEN {f(9), st(5, "cali-a")} ELSE {}) }
-    \cup { [kind |-> "ins", chain |-> "cali-a", pos |-> p, rule |-> r] : p \in {0, 9}, r \in {f(7), st(2, "")} }
-    \cup { [kind |-> "del", chain |-> c, pos |-> p] : c \in KCh \cup DesChains, p \in {1, 2} }
-    \cup { [kind |-> "swap", chain |-> c] : c \in KCh \cup {"cali-a"} }
-    \cup { [kind |-> "restamp", chain |-> c] : c \in KCh \cup {"cali-a"} }
-    \cup { [kind |-> "flush", chain |-> c] : c \in DesChains }
-    \cup { [kind |-> "delchain", chain |-> c] : c \in DesChains }
+        r \in {f(7), st(1, "")} \cup (IF Rich >= 1 THEN {old(8, "cali-old")} ELSE {})
+                                \cup (IF Rich >= 2 THEN {f(9), st(5, "cali-a")} ELSE {}) }
+    \cup { [kind |-> "ins", chain |-> "cali-a", pos |-> p, rule |-> r] :
+             p \in {0} \cup (IF Rich >= 1 THEN {9} ELSE {}), r \in {f(7)} \cup (IF Rich >= 1 THEN {st(2, "")} ELSE {}) }
+    \cup { [kind |-> "del", chain |-> c, pos |-> p] :
+             c \in KCh \cup {"cali-a"} \cup (IF Rich >= 1 THEN {"cali-b"} ELSE {}), p \in {1} \cup (IF Rich >= 1 THEN {2} ELSE {}) }
+    \cup { [kind |-> "swap", chain |-> c] : c \in {"cali-a"} \cup (IF Rich >= 1 THEN KCh ELSE {}) }
+    \cup { [kind |-> "restamp", chain |-> c] : c \in KCh \cup (IF Rich >= 1 THEN {"cali-a"} ELSE {}) }
+    \cup { [kind |-> "flush", chain |-> c] : c \in IF Rich >= 1 THEN DesChains ELSE {} }
+    \cup { [kind |-> "delchain", chain |-> c] : c \in {"cali-a"} \cup (IF Rich >= 1 THEN {"cali-b"} ELSE {}) }
     \cup { [kind |-> "addchain", chain |-> c, rules |-> rs] :
-             c \in {"cali-old", "felix-old"}, rs \in {<<st(1, "")>>} }
-    \cup { [kind |-> "addchain", chain |-> "other", rules |-> rs] : rs \in {<<f(7)>>, <<f(7), old(8, "cali-old"), f(9)>>} }
-    \cup { [kind |-> "addchain", chain |-> "cali-b", rules |-> <<st(1, ""), f(7)>>] }
+             c \in {"cali-old"} \cup (IF Rich >= 1 THEN {"felix-old"} ELSE {}), rs \in {<<st(1, "")>>} }
+    \cup { [kind |-> "addchain", chain |-> "other", rules |-> rs] :
+             rs \in {<<f(7), old(8, "cali-old"), f(9)>>} \cup (IF Rich >= 1 THEN {<<f(7)>>} ELSE {}) }
+    \cup (IF Rich >= 1 THEN { [kind |-> "addchain", chain |-> "cali-b", rules |-> <<st(1, ""), f(7)>>] } ELSE {})
+
+\* edits made while an Apply is running (a subset, to keep the generator's branching down)
+PreEdits == IF Rich >= 2 THEN Edits
+            ELSE { e \in Edits : \/ e.kind = "ins" /\ e.chain \in KCh /\ e.pos = 0
+                                 \/ e.kind = "del" /\ e.pos = 1
+                                 \/ e.kind = "addchain" /\ e.chain = "cali-old" }
 
 EditFn(k, e) ==
     LET c == e.chain IN
@@ -60,8 +73,8 @@ EditFn(k, e) ==
       [] e.kind = "addchain" -> Put(k, c, e.rules)
 
 \* ---- start kernels ------------------------------------------------------------------------------
-KStartMenu == {<<>>, <<f(7)>>, <<f(7), st(1, ""), f(9)>>, <<old(8, "cali-old"), f(7)>>}
-              \cup (IF Rich THEN {<<st(5, "cali-a")>>, <<f(7), f(9), old(8, "felix-old")>>} ELSE {})
+KStartMenu == {<<f(7), st(1, ""), f(9)>>} \cup (IF Rich >= 1 THEN {<<>>, <<f(7)>>, <<old(8, "cali-old"), f(7)>>} ELSE {})
+              \cup (IF Rich >= 2 THEN {<<st(5, "cali-a")>>, <<f(7), f(9), old(8, "felix-old")>>} ELSE {})
 ExtraChains == [c \in {"cali-a", "cali-old", "felix-old", "other"} |->
                   CASE c = "cali-a" -> <<st(1, ""), st(3, "")>>
                     [] c = "cali-old" -> <<st(2, "")>>
@@ -71,5 +84,5 @@ StartKernels ==
     { [c \in KCh \cup X |-> IF c \in KCh THEN km[c] ELSE ExtraChains[c]] :
         km \in [KCh -> KStartMenu], X \in StartExtras }
     \cup { [c \in {} |-> <<>>] }
-Cfgs == { [mode |-> m, ownsAll |-> o, kchains |-> KCh] : m \in Modes, o \in OwnsAllSet }
+Cfgs == { [mode |-> m, ownsAll |-> o, kchains |-> KCh] : m \in Modes, o \in OwnsAllSet } \ {[mode |-> "append", ownsAll |-> TRUE, kchains |-> KCh]}
 =============================================================================
